@@ -25,6 +25,7 @@ type Val struct {
 	Bind []Val // closure bindings
 	Bad  string // non-empty: value could not be modelled (reason); T is an unconstrained constant
 	Parts []string // for locally constructed slices: base, off, len, cap (lets len()/cap() fold to simple terms)
+	NilIf string   // for symbolic addresses that may also be nil (phi of nil and an address): the condition under which it is nil
 	LZ    int      // number of low bits known to be zero (value is a multiple of 2^LZ)
 	UB    int      // value known to be in [0, 2^UB) when UB > 0
 }
@@ -139,6 +140,8 @@ type Gen struct {
 	nLocal    int
 	replay    *ReplayPlan
 	lookups   []lookupRec
+	heapElem  map[string]types.Type // Go type of the values stored in a heap (for well-formedness axioms)
+	heapDepth map[string]int        // number of index levels (1: field/cell, 2: elems/map values)
 }
 
 // keepHeap: heaps an unknown callee cannot write: ghost variables, immutable globals, address-taken locals that never escaped.
@@ -155,7 +158,7 @@ func NewGen(p *Prog) *Gen {
 
 func newGen0(p *Prog) *Gen {
 	return &Gen{P: p, sorts: p.sorts, heapSorts: map[string]string{}, declared: map[string]bool{}, fieldIDs: map[string]int{},
-		strLits: map[string]string{}, typeTags: map[string]int{}, trusted: map[string]bool{}, ghost: map[string]bool{}, funcIDs: map[string]int{}, uf: map[string]bool{}, escaped: map[string]bool{}}
+		strLits: map[string]string{}, typeTags: map[string]int{}, trusted: map[string]bool{}, ghost: map[string]bool{}, funcIDs: map[string]int{}, uf: map[string]bool{}, escaped: map[string]bool{}, heapElem: map[string]types.Type{}, heapDepth: map[string]int{}}
 }
 
 func (g *Gen) emit(cmd string) {
@@ -265,6 +268,7 @@ func (g *Gen) heapGet(st *State, name string) string {
 		if name == "Alloc" {
 			g.assume(app(">=", sym, "1"))
 		}
+		g.heapWF(st, name, sym, ep)
 		if g.immutableHeap(name) {
 			// immutable package-level error value: never nil, distinct from every other such constant and from dynamic errors
 			g.assume(app("<", sym, "0"))
@@ -277,6 +281,72 @@ func (g *Gen) heapGet(st *State, name string) string {
 		}
 	}
 	return sym
+}
+
+// heapWF: every reference stored, as of the epoch start, in a cell of an object that exists at the epoch start
+// denotes an object allocated before that moment (so objects allocated later cannot alias what is read from an
+// unmodified cell). Cells of not-yet-allocated objects are unconstrained.
+func (g *Gen) heapWF(st *State, name, sym string, ep int) {
+	el, ok := g.heapElem[name]
+	if !ok || g.pure > 0 {
+		return
+	}
+	type proj struct {
+		f  func(t string) string
+		lo bool
+	}
+	var projs []proj
+	var gather func(t types.Type, f func(string) string, depth int)
+	gather = func(t types.Type, f func(string) string, depth int) {
+		switch u := t.Underlying().(type) {
+		case *types.Pointer:
+			_, isArr := u.Elem().Underlying().(*types.Array)
+			projs = append(projs, proj{f, !isArr})
+		case *types.Map, *types.Chan:
+			projs = append(projs, proj{f, true})
+		case *types.Slice:
+			projs = append(projs, proj{func(x string) string { return app("sl.base", f(x)) }, true})
+		case *types.Struct:
+			if depth >= 2 {
+				return
+			}
+			dt := g.sorts.structDT(t, u)
+			for i := 0; i < u.NumFields(); i++ {
+				acc := dt.Fields[i].Name
+				gather(u.Field(i).Type(), func(x string) string { return app(acc, f(x)) }, depth+1)
+			}
+		}
+	}
+	gather(el, func(x string) string { return x }, 0)
+	if len(projs) == 0 {
+		return
+	}
+	// allocation counter at the start of the epoch (the current one when the epoch has no base symbol)
+	base := quote(fmt.Sprintf("Alloc@e%d", ep))
+	if !g.declared[base] {
+		if ep == 0 {
+			base = g.heapGet(&State{h: map[string]string{}}, "Alloc")
+		} else {
+			base = g.heapGet(st, "Alloc")
+		}
+	}
+	var sel, binders string
+	if g.heapDepth[name] == 2 {
+		sel = app("select", app("select", sym, "r!"), "i!")
+		binders = "((r! Int) (i! Int))"
+	} else {
+		sel = app("select", sym, "r!")
+		binders = "((r! Int))"
+	}
+	var conj []string
+	for _, p := range projs {
+		c := app("<", p.f(sel), base)
+		if p.lo {
+			c = sAnd(app("<=", "0", p.f(sel)), c)
+		}
+		conj = append(conj, c)
+	}
+	g.assume(fmt.Sprintf("(forall %s (! (=> %s %s) :pattern (%s)))", binders, oldObj("r!", base), sAnd(conj...), sel))
 }
 
 func (g *Gen) heapSet(st *State, name, term string) {
@@ -321,11 +391,14 @@ func (g *Gen) fieldHeap(st types.Type, i int) (name string, ft types.Type) {
 		name = fmt.Sprintf("F:anon%d.%s", g.sorts.structDT(st, u).order, f.Name())
 	}
 	g.regHeap(name, arrSort(SInt, g.sorts.SortOf(f.Type())))
+	g.heapElem[name], g.heapDepth[name] = f.Type(), 1
 	return name, f.Type()
 }
 
 func (g *Gen) elemsHeap(el types.Type) string {
-	return g.regHeap("Elems:"+typeStr(el), arrSort(SInt, arrSort(SInt, g.sorts.SortOf(el))))
+	name := "Elems:" + typeStr(el)
+	g.heapElem[name], g.heapDepth[name] = el, 2
+	return g.regHeap(name, arrSort(SInt, arrSort(SInt, g.sorts.SortOf(el))))
 }
 
 func (g *Gen) cellHeap(el types.Type) string {
@@ -334,6 +407,7 @@ func (g *Gen) cellHeap(el types.Type) string {
 	if _, isBasic := el.Underlying().(*types.Basic); isBasic {
 		key = el.Underlying()
 	}
+	g.heapElem["Cell:"+typeStr(key)], g.heapDepth["Cell:"+typeStr(key)] = el, 1
 	return g.regHeap("Cell:"+typeStr(key), arrSort(SInt, g.sorts.SortOf(el)))
 }
 
@@ -344,6 +418,9 @@ func (g *Gen) mapHeaps(m *types.Map) (dom, val, ln string) {
 	ks := g.sorts.SortOf(m.Key())
 	dom = g.regHeap("MapDom:"+k, arrSort(SInt, arrSort(ks, SBool)))
 	val = g.regHeap("MapVal:"+k, arrSort(SInt, arrSort(ks, g.sorts.SortOf(m.Elem()))))
+	if ks == SInt {
+		g.heapElem[val], g.heapDepth[val] = m.Elem(), 2
+	}
 	ln = g.regHeap("MapLen:"+k, arrSort(SInt, SInt))
 	return
 }
